@@ -317,7 +317,7 @@ def run(ctx, res):
         for b in bad:
             res.violation('concurrent parse() calls on one instance disagree with a fresh instance', {'grammar': job[0], 'text': job[1], 'options': job[4], 'detail': b})
     # ---- (c) histories
-    N = tier_scale(tier, 500, 8000) * (3 if ctx['deepen'] else 1)
+    N = tier_scale(tier, 1200, 10000) * (3 if ctx['deepen'] else 1)
     hj = [(shapelib.gen_grammar(rng), rng.randrange(1 << 30), i % 4 == 0) for i in range(N)]
     for job, (st, rec) in zip(hj, pmap(_history, hj, chunksize=4)):
         if st != 'ok':
